@@ -267,8 +267,27 @@ fn in_domain(m: &Model) -> bool {
         // a moved link keeps its text on disk but its absolute target in Memfs
         (Kind::Link, Some(t), Some(r)) => {
             let dir = tree::parent(k).unwrap_or_else(|| "/".into());
-            let via = if r.starts_with('/') { crate::refpath::clean(r) } else { crate::refpath::clean(&format!("{}/{}", dir, r)) };
-            via == *t
+            if r.starts_with('/') {
+                // absolute text: fine where it is, but the relative form an entry reports is
+                // recomputed from the location on disk and remembered from creation in Memfs
+                crate::refpath::clean(r) == *t && crate::refpath::relative(t, &dir) == *r
+            } else {
+                // the virtual root is not the real root: a text that climbs above it leaves the sandbox
+                let depth = tree::depth(&dir) as i64;
+                let mut level = depth;
+                let mut escapes = false;
+                for c in r.split('/') {
+                    match c {
+                        ".." => level -= 1,
+                        "" | "." => {},
+                        _ => level += 1,
+                    }
+                    if level < 0 {
+                        escapes = true;
+                    }
+                }
+                !escapes && crate::refpath::clean(&format!("{}/{}", dir, r)) == *t && crate::refpath::relative(t, &dir) == *r
+            }
         },
         _ => true,
     })
@@ -571,6 +590,13 @@ pub fn run_diff(
             && matches!(vop, Op::Copy { .. } | Op::CopyB { .. } | Op::Chmod { .. } | Op::ChmodB { .. } | Op::RemoveAll { .. });
         if failed_multi {
             stats.bump("runs_ended_after_failed_multi_entry_call");
+            break;
+        }
+        // a copy whose destination lies inside its source reads files it may already have
+        // overwritten in the same call: which bytes win depends on the enumeration order, which is
+        // free. Outcomes are compared, the resulting trees are not, and the run ends.
+        if matches!(vop, Op::Copy { .. } | Op::CopyB { .. }) && class.contains("rel=dst-inside-src") && v.is_none() {
+            stats.bump("runs_ended_after_copy_into_own_subtree");
             break;
         }
         if v.is_none() {
